@@ -433,3 +433,127 @@ class CountCoresInState:
         # arg2: level 0 << 26 | "all cores of the region" 1 << 22 | operation count (2) << 20 | state << 16 | app mask 0xff << 8 | app
         return ((0 <= state <= 11 or state == 15) and result == g_reply.arg1 and len(_trace) == 1
                 and _trace[0] == ("scp", 255, 255, 0, CMD_SIGNAL, 1, (1 << 22) + (2 << 20) + state * 65536 + 0xff00 + app_id, 0xffff))
+
+
+# ---- load_application: one ATTEMPT (the body of its while loop); the verification scan itself is abstracted here - its three
+# ---- nested steps are under contract above (LoadApplicationCoreCheck / ChipCheck / BinaryCheck) ---------------------------------
+from pyvc.values import TBool as _TBool, ObjV as _ObjV9, TReal as _TReal   # noqa: E402
+from pyvc.speclib import ite as _ite   # noqa: E402
+
+DICT9 = TRec("Dict", ident=TInt())
+
+
+def _la_fill(E, obj, args, kwargs, st, node):
+    s = st.copy()
+    s.trace = ListV(s.trace.items + (("flood_fill", tuple(args), tuple(sorted(kwargs.items()))),))
+    return [(s, NONE, None)]
+
+
+def _la_sleep(E, args, kwargs, st, node):
+    s = st.copy()
+    s.trace = ListV(s.trace.items + (("sleep",) + tuple(args),))
+    return [(s, NONE)]
+
+
+def _la_count(E, obj, args, kwargs, st, node):
+    s = st.copy()
+    s.trace = ListV(s.trace.items + (("count",) + tuple(args),))
+    return [(s, st.env["g_count"], None)]
+
+
+def _la_dict(E, args, kwargs, st, node):
+    return [(st, st.env["g_fresh_dict"])]
+
+
+@contract("rig/machine_control/machine_controller.py::MachineController.load_application@whilebody:0")
+class LoadApplicationAttempt:
+    """one attempt: exactly the targets STILL unloaded are filled again (never the whole request again), for the application
+    of the call and always held in `wait`; the cores are given app_start_delay to come up; with use_count the attempt is
+    accepted exactly when the number of cores of the application in state `wait` equals the number requested - otherwise (and
+    always without use_count) what remains unloaded is what the per-core scan found; every attempt is counted"""
+    properties = ("C09",)
+    params = dict(self=TRec("MachineController"), unloaded=DICT9, tries=TInt(0, None), app_id=TInt(0, 255), app_start_delay=_TReal(),
+                  use_count=_TBool(), core_count=TInt(0, None), g_count=TInt(0, None), g_fresh_dict=DICT9,
+                  # (the other variables of the function that are live here: a changed body that uses them is verified, not skipped)
+                  application_map=DICT9, n_tries=TInt(0, None), wait=_TBool())
+    fragment_result = ("tries",)
+    fragment_head = "while unloaded != {} and tries <= n_tries:"
+    externals = {"MachineController.flood_fill_aplx": _la_fill, "sleep": _la_sleep, "MachineController.count_cores_in_state": _la_count, "dict": _la_dict}
+    abstracted = {"for (app_name, targets) in iteritems(unloaded):": {"new_unloadeds": DICT9}}
+    options = {"no_merge": True}
+    assumptions = ["flood_fill_aplx (FloodFillAplx), count_cores_in_state (CountCoresInState) and time.sleep are recorded here; dictionaries are opaque identities"]
+
+    def native(tries):
+        raise __import__("pyvc.replay", fromlist=["OutsideHarness"]).OutsideHarness()
+
+    def ensures_fills_what_is_still_unloaded_then_waits(unloaded, app_id, app_start_delay, tries, result, _trace):
+        return (len(_trace) >= 2 and _trace[0] == ("flood_fill", (unloaded,), (("app_id", app_id), ("wait", True)))
+                and _trace[1] == ("sleep", app_start_delay) and result[0] == tries + 1)
+
+    def ensures_counts_the_waiting_cores_of_this_application_when_asked_to(use_count, app_id, _trace):
+        return (implies(use_count, len(_trace) == 3 and _trace[2] == ("count", "wait", app_id))
+                and implies(not use_count, len(_trace) == 2))
+
+    # which of the two outcomes an attempt has: nothing left to load (accepted by the count) / what the scan found
+    ghost_asserts = {"unloaded = {}": ["ghost_accepted_only_when_all_requested_cores_wait"],
+                     "unloaded = new_unloadeds": ["ghost_scan_result_taken_whenever_the_count_does_not_settle_it"]}
+
+    def ghost_accepted_only_when_all_requested_cores_wait(use_count, core_count, g_count):
+        return use_count and core_count == g_count
+
+    def ghost_scan_result_taken_whenever_the_count_does_not_settle_it(use_count, core_count, g_count):
+        return not (use_count and core_count == g_count)
+
+
+MAP9 = TMap(TInt(), TInt())
+
+
+def _la_fill2(E, obj, args, kwargs, st, node):
+    return [(st, NONE, None)]
+
+
+def _la_sleep2(E, args, kwargs, st, node):
+    return [(st, NONE)]
+
+
+def _la_count2(E, obj, args, kwargs, st, node):
+    from pyvc.values import fresh
+    v, facts = fresh(TInt(0, None), "count")
+    return [(st.assume(*facts), v, None)]
+
+
+def _la_dict2(E, args, kwargs, st, node):
+    from pyvc.values import fresh
+    v, facts = fresh(MAP9, "newdict")
+    return [(st.assume(*facts), v)]
+
+
+@contract("rig/machine_control/machine_controller.py::MachineController.load_application@while:0")
+class LoadApplicationAttempts:
+    """the attempts END: at most n_tries + 1 of them (the first load and n_tries repeats), fewer exactly when nothing is left
+    unloaded - whatever the fills, the counts and the scans return"""
+    properties = ("C09",)
+    params = dict(self=TRec("MachineController"), unloaded=MAP9, tries=TInt(0, None), n_tries=TInt(0, None), app_id=TInt(0, 255),
+                  app_start_delay=_TReal(), use_count=_TBool(), core_count=TInt(0, None), application_map=MAP9, wait=_TBool())
+    fragment_result = ("unloaded", "tries")
+    fragment_head = "while unloaded != {} and tries <= n_tries:"
+    externals = {"MachineController.flood_fill_aplx": _la_fill2, "sleep": _la_sleep2, "MachineController.count_cores_in_state": _la_count2, "dict": _la_dict2}
+    abstracted = {"for (app_name, targets) in iteritems(unloaded):": {"new_unloadeds": MAP9}}
+    loop_headers = {0: "while unloaded != {} and tries <= n_tries:"}
+    options = {"var_shapes": {"unloaded": MAP9, "new_unloadeds": MAP9}}
+    assumptions = ["fills, counts, sleeps and the scan are arbitrary here (their contracts are LoadApplicationAttempt, FloodFillAplx, CountCoresInState, the three scan steps)"]
+
+    def native(tries):
+        raise __import__("pyvc.replay", fromlist=["OutsideHarness"]).OutsideHarness()
+
+    def requires(tries):
+        return tries == 0
+
+    def inv_0_attempts_so_far(tries, n_tries):
+        return 0 <= tries <= n_tries + 1
+
+    def variant_0(tries, n_tries):
+        return n_tries + 1 - tries
+
+    def ensures_stops_only_when_loaded_or_out_of_attempts(n_tries, result):
+        return (result[0] == {} and result[1] <= n_tries + 1) or result[1] == n_tries + 1
